@@ -33,6 +33,9 @@ type scriptSpec struct {
 type dlCase struct {
 	DeadlineMS int          `json:"deadline_ms"`
 	Scripts    []scriptSpec `json:"scripts"`
+	// Sequential runs the scripts one after the other (a T whose Run does not return before the subtest is done,
+	// like the standalone command's): later scripts start when part of the time budget is already used up.
+	Sequential bool `json:"sequential,omitempty"`
 }
 
 func grace(d time.Duration) time.Duration {
@@ -88,6 +91,10 @@ func runCase(c dlCase) (fail *vt.Fail, soft string) {
 			lines = append(lines, neg+"exec vmain block --pid="+pf)
 		case "ignore-quit":
 			lines = append(lines, neg+"exec vmain block --ignore-quit --pid="+pf)
+		case "consume":
+			// finishes by itself after using up a fraction of the budget (EdgeMS is the percentage of D)
+			ms := int(D/time.Millisecond) * s.EdgeMS / 100
+			lines = append(lines, fmt.Sprintf("exec vmain sleepms %d", ms))
 		case "sleep-edge":
 			at := D - 2*g
 			if s.AtKill {
@@ -111,7 +118,7 @@ func runCase(c dlCase) (fail *vt.Fail, soft string) {
 	ch := make(chan done, 1)
 	t0 := time.Now()
 	go func() {
-		rr := tskit.RunInProcess(root, files, tskit.RunOpts{Params: testscript.Params{Cmds: r.Cmds()}, Parallel: true, Deadline: D})
+		rr := tskit.RunInProcess(root, files, tskit.RunOpts{Params: testscript.Params{Cmds: r.Cmds()}, Parallel: !c.Sequential, Deadline: D})
 		ch <- done{rr}
 	}()
 	var rr tskit.RunResult
@@ -160,7 +167,7 @@ func runCase(c dlCase) (fail *vt.Fail, soft string) {
 			}
 		}
 		switch e.kind {
-		case "early":
+		case "early", "consume":
 			if sub.Verdict != "pass" || !ranAfter {
 				return vt.Failf("early-script-affected", "a script that finishes long before the deadline was reported %s (later line ran: %v)%s", sub.Verdict, ranAfter, ctx), ""
 			}
@@ -238,6 +245,19 @@ func trunc(s string, n int) string {
 
 func genDeadline(t *rapid.T) dlCase {
 	c := dlCase{DeadlineMS: rapid.SampledFrom([]int{300, 400, 600, 900, 1500, 2200, 3000}).Draw(t, "deadline")}
+	if rapid.IntRange(0, 3).Draw(t, "sequential") == 0 {
+		// sequential T: scripts that use up 10-35% of the budget each, then one that blocks
+		c.Sequential = true
+		if c.DeadlineMS < 900 {
+			c.DeadlineMS = 900
+		}
+		n := rapid.IntRange(1, 2).Draw(t, "nconsume")
+		for i := 0; i < n; i++ {
+			c.Scripts = append(c.Scripts, scriptSpec{Kind: "consume", EdgeMS: rapid.IntRange(10, 35).Draw(t, "pct")})
+		}
+		c.Scripts = append(c.Scripts, scriptSpec{Kind: rapid.SampledFrom([]string{"block", "ignore-quit"}).Draw(t, "lastkind"), Neg: rapid.IntRange(0, 3).Draw(t, "neg") == 0, Before: rapid.IntRange(0, 2).Draw(t, "before")})
+		return c
+	}
 	n := rapid.IntRange(1, 4).Draw(t, "nscripts")
 	for i := 0; i < n; i++ {
 		s := scriptSpec{Kind: rapid.SampledFrom([]string{"early", "block", "block", "ignore-quit", "ignore-quit", "sleep-edge"}).Draw(t, "kind"), Before: rapid.IntRange(0, 2).Draw(t, "before")}
@@ -252,6 +272,9 @@ func genDeadline(t *rapid.T) dlCase {
 func TestDeadlines(t *testing.T) {
 	vt.Run(t, rec, vt.Prop[dlCase]{Kind: "deadline", Gen: genDeadline, Check: checkDeadline, Meta: func(c dlCase) vt.Meta {
 		cl := []string{fmt.Sprintf("deadline=%dms", c.DeadlineMS)}
+		if c.Sequential {
+			cl = append(cl, "sequential-T")
+		}
 		for _, s := range c.Scripts {
 			cl = append(cl, "script="+s.Kind)
 		}
